@@ -4,6 +4,7 @@ CONSTANTS
   MRoutes = {"deepcopy", "clone2", "clone1", "tns_copy", "ctor", "copy", "clone0", "ctor_newns", "extract", "extract_ref"}
   MOps = {"SetLabel", "SetLength", "SetNodeLabel", "RelabelTaxon", "AddTaxon", "AddAnnotation", "ChangeAnnotation", "ChangeBoundAttr", "Encode", "Structural", "SetCell", "AddComment"}
   MClasses = {"Tree", "TreeList", "Matrix", "Namespace"}
+  MConfigs = {"default"}
   MaxSteps = 1
   MaxCopies = 2
   Bug = "clone1_shares_trees"
